@@ -66,6 +66,10 @@ CLAIMED['C07'] = dict(engine='E3', technique='Coq proof that a document in pico 
     text='Partial. Proved: explicit_lines, expand_shorthand, absolute and round_floats are the identity on absolute M/L/C/Q/A/Z paths rounded to nd <= 8 digits (absolute because rounded positions cannot be near misses of the subpath start); rounding is idempotent; a kept group (opacity in (0,1), >= 2 children) is kept unchanged; orphan removal is idempotent. Not proved: gradient rewriting, float printing under re-parse, step order - decided by the three-pass byte comparison and checkpicosvg on every run. Two fix commits (underfull groups, orphaned gradients); one recorded finding (defs order).',
     note='Theorems over exact reals; judge covers 220/5000 documents x ndigits 0..6, three passes each.',
     design='§7 C07')
+CLAIMED['C14'] = dict(engine='E5', technique='Coq proof about a hand model of the cleaning front end (namespaces, comments, PIs, symbols, title/desc/metadata) tied to the code by a differential run on random trees; paired-conversion judge with a spec-side noise inserter on every run',
+    text='Partial. Proved: the five cleaning passes equal a one-pass purge; inserting comments, PIs, title/desc/metadata, foreign-namespace elements and id-less symbols (each with arbitrary content, at arbitrary positions and depths, also inside each other) and adding foreign-namespace attributes leaves the cleaned tree unchanged; a tree without such content is returned unchanged. Not proved: bare wrapper groups, whitespace/XML declaration (parser level) and that the rest of the pipeline depends on the cleaned tree only - decided on every run by comparing convert(D) with convert(N(D)) up to gradient ids, defs order and the last digit of gradient numbers.',
+    note='Noise.v validated on 700/12000 random trees; judge covers 200/4000 (D, N(D)) pairs with 1-8 insertions over 12 noise kinds.',
+    design='§7 C14')
 PENDING = {}
 
 def main():
